@@ -19,10 +19,26 @@ use zlink_core::{Call, Connection};
 
 const PRE: &str = "{\"parameters\":{\"name\":\"";
 
-pub fn run_case(names: &[String], groups: &[usize]) -> Vec<String> {
+/// the frame at `err_at` (if any) is not a reply of the expected shape: the stream yields `Err(_)` there and ends
+pub fn frames_of(names: &[String], err_at: Option<(usize, u8)>) -> Vec<Vec<u8>> {
+    names
+        .iter()
+        .enumerate()
+        .map(|(i, n)| match err_at {
+            Some((k, kind)) if k == i => match kind % 3 {
+                0 => format!("{{\"error\":\"org.varlink.service.MethodNotFound\",\"parameters\":{{\"method\":\"{n}\"}}}}").into_bytes(),
+                1 => format!("undecodable {n}").into_bytes(),
+                _ => format!("{{\"error\":\"org.varlink.service.PermissionDenied\",\"x\":\"{n}\"}}").into_bytes(),
+            },
+            _ => format!("{PRE}{n}\"}}}}").into_bytes(),
+        })
+        .collect()
+}
+
+pub fn run_case(names: &[String], groups: &[usize], err_at: Option<(usize, u8)>) -> Vec<String> {
     let net = new_net(vec![]);
     let mut conn = Connection::new(SSocket(net.clone()));
-    let frames: Vec<Vec<u8>> = names.iter().map(|n| format!("{PRE}{n}\"}}}}").into_bytes()).collect();
+    let frames: Vec<Vec<u8>> = frames_of(names, err_at);
     let mut chain = conn.chain_call::<M1, P2<'_>, E2<'_>>(&Call::new(M1::B)).unwrap();
     for _ in 1..names.len() {
         chain = chain.append(&Call::new(M1::B)).unwrap();
@@ -33,6 +49,7 @@ pub fn run_case(names: &[String], groups: &[usize]) -> Vec<String> {
     let mut cx = std::task::Context::from_waker(&w);
     let mut held: Vec<(zlink_core::Reply<P2<'_>>, String)> = vec![];
     let mut next_frame = 0;
+    let mut ended_with_err = false;
     for g in groups {
         {
             let mut n = net.borrow_mut();
@@ -48,18 +65,27 @@ pub fn run_case(names: &[String], groups: &[usize]) -> Vec<String> {
                     let copy = r.parameters().map(|p| p.name.to_string()).unwrap_or_default();
                     held.push((r, copy));
                 }
-                Poll::Ready(Some(_)) => held.clear(),
+                // a general error ends the stream; the items yielded before it are still held by the caller
+                Poll::Ready(Some(_)) => ended_with_err = true,
                 Poll::Ready(None) | Poll::Pending => break,
             }
         }
+        if ended_with_err {
+            break;
+        }
     }
     let p0 = held.first().and_then(|(r, _)| r.parameters().map(|p| p.name.as_ptr() as i64)).unwrap_or(0);
-    held.iter()
+    let mut out: Vec<String> = held
+        .iter()
         .map(|(r, copy)| {
             let d = r.parameters().map(|p| p.name.as_ptr() as i64 - p0).unwrap_or(0);
             format!("{}@{d}", if r.parameters().map(|p| p.name) == Some(copy.as_str()) { "same" } else { "diff" })
         })
-        .collect()
+        .collect();
+    if ended_with_err {
+        out.push("err".into());
+    }
+    out
 }
 
 pub fn main(o: &Opts) {
@@ -105,10 +131,20 @@ pub fn main(o: &Opts) {
             groups.push(g);
             left -= g;
         }
+        // every sixth case: one of the replies after the first is a general error (service error / undecodable
+        // frame): the stream yields Err and ends while the earlier items are still held
+        let err_at = if case % 6 == 5 && k >= 2 { Some((rng.range(1, k - 1), rng.next() as u8)) } else { None };
         em.case(|| {
-            let obs = run_case(&names, &groups);
-            let fs: Vec<String> = names.iter().map(|n| enc_bytes(format!("{PRE}{n}\"}}}}").as_bytes())).collect();
-            vec![format!("alias F {} G {} O {} => {}", fs.join(" "), groups.iter().map(|g| g.to_string()).collect::<Vec<_>>().join(" "), PRE.len(), obs.join(" "))]
+            let obs = run_case(&names, &groups, err_at);
+            let fs: Vec<String> = frames_of(&names, err_at).iter().map(|f| enc_bytes(f)).collect();
+            vec![format!(
+                "alias F {} G {} O {} X {} => {}",
+                fs.join(" "),
+                groups.iter().map(|g| g.to_string()).collect::<Vec<_>>().join(" "),
+                PRE.len(),
+                err_at.map(|(i, _)| i.to_string()).unwrap_or_else(|| "-".into()),
+                obs.join(" ")
+            )]
         });
     }
 }
